@@ -467,6 +467,9 @@ def structure_findings(pairs: Pairs, relaxed_objs: list, counters) -> list[tuple
     so = snapshot.snapshot(wo, identities=False, name_authority=False)
     sc = snapshot.snapshot(wc, identities=False, name_authority=False)
     for label in so:
+        if so[label].get("graph") == "?graph":
+            # owned (listed as input/output/initializer) by a graph outside the cloned region
+            relaxed.setdefault(label, set()).update(("graph", "flags"))
         a, b = so[label].get("shape"), sc.get(label, {}).get("shape")
         if isinstance(a, tuple) and isinstance(b, tuple) and len(a) >= 4 and a[3] != b[3]:
             counters["report_only_shape_frozen_flag_differs"] += 1
